@@ -96,6 +96,9 @@ type C12Unk struct {
 	V   uint64 `json:"v,omitempty"`
 	X   []byte `json:"x,omitempty"`
 	R   int    `json:"r,omitempty"`
+	// G: W = "group": the fields between the start-group and the end-group tag (any field
+	// numbers, further groups included)
+	G []C12Unk `json:"g,omitempty"`
 }
 
 // c12UnknownBytes renders the unknown fields of a tree node as wire data, or returns an
@@ -105,9 +108,9 @@ func c12UnknownBytes(md protoreflect.MessageDescriptor, us []C12Unk) ([]byte, er
 	for _, u := range us {
 		n := protoreflect.FieldNumber(u.Num)
 		if u.Num < 1 || u.Num > 536870911 || (u.Num >= 19000 && u.Num <= 19999) {
-			return nil, fmt.Errorf("message %s: %d is not a usable field number", md.FullName(), u.Num)
+			return nil, fmt.Errorf("%d is not a usable field number", u.Num)
 		}
-		if md.Fields().ByNumber(n) != nil {
+		if md != nil && md.Fields().ByNumber(n) != nil {
 			return nil, fmt.Errorf("message %s: field number %d is not unknown", md.FullName(), u.Num)
 		}
 		switch u.W {
@@ -119,8 +122,16 @@ func c12UnknownBytes(md protoreflect.MessageDescriptor, us []C12Unk) ([]byte, er
 			b = protowire.AppendFixed64(protowire.AppendTag(b, n, protowire.Fixed64Type), u.V)
 		case "bytes":
 			b = protowire.AppendBytes(protowire.AppendTag(b, n, protowire.BytesType), c12Bytes(C12Val{X: u.X, R: u.R}))
+		case "group":
+			inner, err := c12UnknownBytes(nil, u.G) // inside a group any field number may occur
+			if err != nil {
+				return nil, err
+			}
+			b = protowire.AppendTag(b, n, protowire.StartGroupType)
+			b = append(b, inner...)
+			b = protowire.AppendTag(b, n, protowire.EndGroupType)
 		default:
-			return nil, fmt.Errorf("message %s: unknown field %d has unsupported wire type %q", md.FullName(), u.Num, u.W)
+			return nil, fmt.Errorf("unknown field %d has unsupported wire type %q", u.Num, u.W)
 		}
 	}
 	return b, nil
@@ -463,6 +474,17 @@ func (st *c12Stats) long(n int, ctx string) {
 	if st.longBy == nil {
 		st.longBy = map[string]bool{}
 	}
+	if n <= -3 { // unknown groups: -3-depth, -10 = an inner group with another number
+		if n == -10 {
+			st.longBy["unknown:group_inside_group_other_number"] = true
+		} else {
+			st.longBy["unknown:group"] = true
+			if n <= -5 {
+				st.longBy["unknown:group_depth>=2"] = true
+			}
+		}
+		return
+	}
 	if n == -2 { // a value of the class "domain word"
 		st.longBy["domain_word:"+ctx] = true
 		return
@@ -559,6 +581,13 @@ func c12Walk(md protoreflect.MessageDescriptor, tree *C12Msg, depth int, st *c12
 		}
 		if u.Num == 536870911 {
 			st.unkMaxNum++
+		}
+		if u.W == "group" {
+			d, other := c12GroupShape(u)
+			st.long(-3-d, "")
+			if other {
+				st.long(-10, "")
+			}
 		}
 	}
 	// non-empty repeated fields of this message, by element type
@@ -975,6 +1004,25 @@ func c12Judge(m, want proto.Message, ty c12Type, vtFirst, noMemo bool) (verdict 
 		}
 	}
 	return "", hist, hasVT
+}
+
+// c12GroupShape: nesting depth of groups under u (1 = no inner group) and whether some
+// inner group has another number than the group enclosing it.
+func c12GroupShape(u C12Unk) (depth int, otherNumber bool) {
+	depth = 1
+	for _, c := range u.G {
+		if c.W != "group" {
+			continue
+		}
+		d, o := c12GroupShape(c)
+		if d+1 > depth {
+			depth = d + 1
+		}
+		if o || c.Num != u.Num {
+			otherNumber = true
+		}
+	}
+	return depth, otherNumber
 }
 
 var c12IndepDone = map[uint64]struct{}{}
